@@ -127,5 +127,35 @@ CHECKS['C18'] = dict(
           'verify_write_sourcemap_args, normrelpath, node lists.'),
 )
 
+CHECKS['C14'] = dict(
+    engine='E1 frame + E4',
+    level='other',
+    ref='DESIGN.md 4 (C14)',
+    technique='deductive frame / ownership verification over the real AST (every store has a base owned by the current call; per-call objects allocated in per-call closures); bounded call histories as cross-check',
+    text=('For every function of the 9 modules reachable from BaseUnparser.__call__, each store site (attribute/subscript '
+          'assignment, del, mutator call, setattr) is shown to target an object allocated within the current call: a local bound '
+          'only to fresh allocations or the self of a class whose every instantiation site lies inside the per-call closure '
+          '(O-alloc: Indentator, Obfuscator, Dispatcher, Scope, NameGenerator). No mutable default, memoising decorator, global, '
+          'module/class-level mutable template or one-shot iterator kept across calls. From these frame conditions and sequential '
+          'determinism the history independence follows; that last step is an argument, not an obligation, hence "other". '
+          'Histories with abandoned and raised calls and the convenience shortcuts are checked bounded.'),
+    note=('Trusted: ownership tables (contracts/frames.py), syntactic aliasing assumptions, determinism of sequential CPython. '
+          'Shortcut equalities (str(node), es5.pretty_print/minify_print): bounded only.'),
+)
+CHECKS['C15'] = dict(
+    engine='E1 frame + E4',
+    level='other',
+    ref='DESIGN.md 4 (C15)',
+    technique='deductive frame / ownership verification over the real AST of lexer, parser, asttypes, factory; bounded call histories against fresh interpreters; threads smoke only',
+    text=('Every store in every function of the lexer, parser (340 actions), asttypes, factory and utils targets state owned by the '
+          'current parse() call; Parser and Lexer are instantiated only inside parse()/Parser.__init__; every Lexer field read is '
+          'initialised in __init__; no module- or class-level mutable state, cache, global, mutable default or nested mutable '
+          'template exists. Hence two parse() calls share no mutable state, from which history- and schedule-independence follow '
+          'given the assumed ply contract. Thread schedules are NOT explored (this family is silent on concurrency): the thread '
+          'run is a smoke test; sequences of calls are compared with fresh interpreters up to a bound.'),
+    note=('Trusted: ply allocates per-call lexer/parser objects and only reads its generated tables; CPython semantics. '
+          'Schedules unexplored.'),
+)
+
 NOT_APPLICABLE = {p: PENDING for p in ['C01', 'C02', 'C03', 'C04', 'C05', 'C07', 'C12',
-                                        'C13', 'C14', 'C15', 'C17', 'C19']}
+                                        'C13', 'C17', 'C19']}
